@@ -174,6 +174,7 @@ class State:
         self.ovmap = {}
         self.shlmap = {}
         self.keep = None
+        self.scratch = False
 
     def clone(self):
         return copy.deepcopy(self)
@@ -204,6 +205,7 @@ class Executor:
         self._derived = {}
         self._varcache = {}
         self.overrides = {}
+        self.ordinals_src = "/repo/crates/ordinals/src"
         self.src_root = ""
         self.overflow_checks = True
         self.by_last = {}
@@ -217,8 +219,6 @@ class Executor:
 
     # ------------------------------------------------------------ solver helpers
     def feasible(self, pc, extra=None):
-        if extra is not None and is_sym(extra) and self.quick_refute(pc, extra):
-            return False
         t0 = time.time()
         self.solver.push()
         for c in pc:
@@ -371,6 +371,15 @@ class Executor:
                 continue
             txt = self.source_span(m.group(1), int(m.group(2)), int(m.group(3)), int(m.group(4)), int(m.group(5)))
             res = txt.strip() == trait
+        if not res and selfty.strip().startswith("ordinals::"):
+            # a type of the ordinals crate used from the lift crate: look at its source
+            import glob, os
+            name = selfty.strip().split("::")[-1]
+            for fp in glob.glob(os.path.join(self.ordinals_src, "**", "*.rs"), recursive=True):
+                txt = open(fp).read()
+                m = re.search(r"#\[derive\(([^\]]*)\)\]\s*(?:#\[[^\]]*\]\s*)*pub (?:struct|enum) %s\b" % re.escape(name), txt, re.S)
+                if m and re.search(r"\b%s\b" % trait, m.group(1)):
+                    res = True
         self._derived[key] = res
         return res
 
@@ -1138,6 +1147,8 @@ class Executor:
         try:
             outcomes = model(self, st, func, args, argtys, dest_ty)
         except ForkOn as fo:
+            if st.scratch:
+                raise      # decided at the level of the real path state, not inside a pure sub-run
             yes = self.feasible(st.pc, fo.cond)
             no = self.feasible(st.pc, z3.Not(fo.cond))
             if yes and no:
